@@ -11,7 +11,7 @@ use std::ffi::c_ulong;
 pub const INFO: CheckInfo = CheckInfo {
     prop: "C02",
     level: "model_checking",
-    rule: "every byte string of the decoder corpus (R4 streams in raw/zlib/gzip wrappers x {intact, trailing garbage, every truncation, every single-bit flip, byte substitutions}) and every byte string of length <= 2 (3 thorough), under every inflateInit2 mode, executed through: streaming inflate under schedules {one call, 1-byte input, 1-byte output, 0-byte output then ample, first call exactly 14/15/16 input bytes x 259/260/261 output bytes (fast-path entry thresholds)}; uncompress / uncompress2 with destination sizes {0,1,exact-1,exact,ample}; zlib_rs::decompress_slice and Inflate::decompress; inflateGetHeader capture with capacities {NULL,0,1,len}. Every buffer handed to the library lies in a guard-paged arena, once with its END against a PROT_NONE page and once with its START right after one; stream state comes from a guard-paged garbage-filled allocator. Oracle: no signal (attributed to the case by the explorer), no panic, documented return code, cursors inside the buffers, totals consistent, bounded number of calls, progress on every call with input and room (bytes or H2 state change). distinct_nontrivial = distinct (verdict, output, consumed) outcomes.",
+    rule: "every byte string of the decoder corpus (R4 streams in raw/zlib/gzip wrappers x {intact, trailing garbage, every truncation, every single-bit flip, byte substitutions}) and every byte string of length <= 2 (3 thorough), under every inflateInit2 mode, executed through: streaming inflate under schedules {one call, 1-byte input, 1-byte output, 0-byte output then ample, first call exactly 14/15/16 input bytes x 259/260/261 output bytes (fast-path entry thresholds), and for intact streams of <= 700 output bytes every position of the first output-room end and every uniform room 4..300}; uncompress / uncompress2 with destination sizes {0,1,exact-1,exact,ample}; zlib_rs::decompress_slice and Inflate::decompress; inflateGetHeader capture with capacities {NULL,0,1,len}. Every buffer handed to the library lies in a guard-paged arena, once with its END against a PROT_NONE page and once with its START right after one; stream state comes from a guard-paged garbage-filled allocator. Oracle: no signal (attributed to the case by the explorer), no panic, documented return code, cursors inside the buffers, totals consistent, bounded number of calls, progress on every call with input and room (bytes or H2 state change). distinct_nontrivial = distinct (verdict, output, consumed) outcomes.",
     assumptions: &["over-reads/over-writes smaller than the allocator's alignment slack inside one allocation are not visible to guard pages (the ASan pass of the thorough tier covers them when nightly is present)", "strings outside the corpus / longer than 3 bytes with > 1 fault are not covered"],
     bound_quick: "corpus programs <= 3 tokens, every mutation under end-placement one-shot; every 3rd mutation under the other schedules/placements; strings <= 2 bytes",
     bound_thorough: "every mutation under every schedule and placement; strings <= 3 bytes",
@@ -222,6 +222,22 @@ pub fn run(ctx: &mut Ctx) {
                             c.exec();
                             run_inflate::<Rs>(it.wb, it.bytes, s, env, &ex, Some(c)).map_err(|e| format!("{e} (schedule [{}], {} placement)", s.desc(), if env.at_end { "end" } else { "start" }))?;
                         }
+                    }
+                    // every position of the end of the output room (guard page right behind it): copies that round
+                    // their length up, or are cut short by avail_out, at every offset
+                    let on = t.out.len();
+                    if it.mut_idx == 0 && (2..=700).contains(&on) {
+                        for r in 1..on {
+                            c.exec();
+                            let s = ISched { steps: vec![IStep { n: AMPLE, room: r, flush: Z_NO_FLUSH }], tail_in: AMPLE, tail_room: AMPLE, tail_flush: Z_NO_FLUSH };
+                            run_inflate::<Rs>(it.wb, it.bytes, &s, &env_end, &ex, Some(c)).map_err(|e| format!("{e} (schedule [{}], end placement)", s.desc()))?;
+                            if r >= 4 && r <= 300 {
+                                c.exec();
+                                let s = ISched::uniform(AMPLE, r, Z_NO_FLUSH);
+                                run_inflate::<Rs>(it.wb, it.bytes, &s, &env_end, &ex, Some(c)).map_err(|e| format!("{e} (schedule [{}], end placement)", s.desc()))?;
+                            }
+                        }
+                        c.count("output_cut_positions", (on - 1) as u64);
                     }
                     c.exec();
                     run_inflate::<Rs>(it.wb, it.bytes, &ISched::one_shot(), &env_start, &ex, Some(c))?;
